@@ -128,6 +128,11 @@ T6 == UNION {{Case("T6", "wrapped", <<F("c", C6(p), 0, 1)>>, <<v>>, <<C6(p)>>, <
 L6 == Obj("Link", "tns", <<F("href", Attr(Prim("Unicode")), 0, 1), F("title", Prim("Unicode"), 0, 1)>>)
 T6b == {Case("T6", "wrapped", <<F("l", L6, 0, 1)>>, <<v>>, <<L6>>, <<v>>) :
           v \in {ObjV("Link", <<h, t>>) : h \in {Nil, Leaf("hello"), Leaf("x < y & z")}, t \in {Nil, Leaf("hello")}}}
+\* T6d: a parent and its child element BOTH declare an attribute of the same name: each element's attributes are its own
+Leaf6 == Obj("Leaf", "tns", <<F("id", Attr(Prim("Unicode")), 0, 1), F("v", Prim("Unicode"), 0, 1)>>)
+Node6 == Obj("Node", "tns", <<F("id", Attr(Prim("Unicode")), 0, 1), F("leaf", Leaf6, 0, 1), F("n", Prim("Integer"), 0, 1)>>)
+T6d == {Case("T6", "wrapped", <<F("c", Node6, 0, 1)>>, <<v>>, <<Node6>>, <<v>>) :
+          v \in {ObjV("Node", <<pid, ObjV("Leaf", <<lid, Leaf("hello")>>), Leaf("5")>>) : pid \in {Nil, Leaf("P1")}, lid \in {Nil, Leaf("L1")}}}
 \* T6c: members whose TYPE declares a default value, holding values that are falsy in the implementation language (false, 0, the
 \* empty string) and ordinary ones: a value that is present is written as it is - the default stands in for absent values only
 PrimD(p, d) == [k |-> "prim", p |-> p, dflt |-> d]
@@ -160,5 +165,5 @@ T9 == {[Case("T9", "wrapped", <<F("a", Prim("Integer"), 0, 1)>>, <<Leaf("5")>>, 
           EXCEPT !.inh = <<H1, H2>>, !.inhvals = <<i1, i2>>, !.outh = <<H1, H2>>, !.outhvals = <<o1, o2>>] :
              i1 \in H1Vals, i2 \in H2Vals, o1 \in H1Vals, o2 \in H2Vals}
 
-Cases == T9 \cup T1 \cup T2 \cup T3 \cup T3b \cup T4 \cup T5 \cup T6 \cup T6b \cup T6c \cup T7 \cup T8
+Cases == T9 \cup T1 \cup T2 \cup T3 \cup T3b \cup T4 \cup T5 \cup T6 \cup T6b \cup T6c \cup T6d \cup T7 \cup T8
 =============================================================================
